@@ -233,11 +233,43 @@ func VP_C17_Distance() {
 	if j != 0 {
 		want = math.Min(1, -math.Log(2*j/(1+j))/float64(k))
 	}
-	vpAssert(d1 == want, "equals min(1, -ln(2j/(1+j))/k)")
+	// (the statement gives the value as a real-number formula; an
+	// implementation may evaluate it in another order, so agreement is asked
+	// up to rounding, not bit for bit)
+	vpAssert(math.Abs(d1-want) <= 1e-12, "equals min(1, -ln(2j/(1+j))/k)")
 	if shared == n {
 		vpAssert(d1 == 0, "0 for identical content")
 	}
 	vpAssert(Distance(x, x, k) == 0, "0 against itself")
 	vpObserveInt("shared", shared)
+	vpReach("end")
+}
+
+// VP_C17_Monotone: FromJaccard is non-increasing in j.
+//
+// mode 1 takes two arbitrary float64 bit patterns in [0,1] (native replay of
+// the known finding D11: symbolic float64 arithmetic with a logarithm is
+// outside what the solvers decide, see DESIGN). mode 0 restricts j to the
+// similarities a sketch comparison can produce, s/n with 0 <= s <= n: after
+// the executor has forked over s1 < s2 every value is concrete and the real
+// FromJaccard, including math.Log, is evaluated on the host: this sub-check is
+// decided by exhaustive concrete execution inside the executor, not by a
+// solver query, and is reported as such.
+func VP_C17_Monotone() {
+	k := vpCase("k")
+	var j1, j2 float64
+	if vpCase("mode") == 1 {
+		j1 = math.Float64frombits(vpUint64("j1bits"))
+		j2 = math.Float64frombits(vpUint64("j2bits"))
+		vpAssume(0 <= j1 && j1 <= j2 && j2 <= 1)
+	} else {
+		n := vpCase("n")
+		s2 := vpConcrete(vpIntRange("s2", 0, n))
+		s1 := vpConcrete(vpIntRange("s1", 0, s2))
+		j1, j2 = float64(s1)/float64(n), float64(s2)/float64(n)
+	}
+	f1, f2 := FromJaccard(j1, k), FromJaccard(j2, k)
+	vpAssert(f1 >= f2, "FromJaccard is non-increasing in j")
+	vpAssert(f1 >= 0 && f1 <= 1 && f2 >= 0 && f2 <= 1, "FromJaccard lies in [0,1]")
 	vpReach("end")
 }
